@@ -28,8 +28,17 @@ impl<A> ActorHandle<A> {
         (self.join_fn)()
     }
 
-    pub fn detach(self) {
-        if let Some(detach_fn) = self.detach_fn {
+    pub fn detach(mut self) {
+        if let Some(detach_fn) = self.detach_fn.take() {
+            detach_fn();
+        }
+    }
+}
+
+/// Dropping the handle must not take the actor down with it, whatever the runtime.
+impl<A> Drop for ActorHandle<A> {
+    fn drop(&mut self) {
+        if let Some(detach_fn) = self.detach_fn.take() {
             detach_fn();
         }
     }
